@@ -53,10 +53,39 @@ def budget(tier):
     return {"cases": 5000, "shards": 16}
 
 
+def _twin(spec):
+    """Give the first typed list / dict a sibling of the same item kind with looser (no) item options: values
+    that are fine for one field and invalid for the other can then travel between them."""
+    keys = {c["key"] for c in spec["children"]}
+    for c in spec["children"]:
+        if c["kind"] == "list" and c.get("item") and c["item"].get("opts") and c["item"]["kind"] not in ("bytes", "secure", "challenge"):
+            free = next((k for k in worlds.KEY_POOL if k not in keys), None)
+            if free:
+                loose = dict(c, key=free, item=dict(c["item"], opts={}, validator=None, req=False), default={"mode": "none"}, req=False, validator=None, twin_of=c["key"])
+                return dict(spec, children=spec["children"] + [loose])
+        if c["kind"] == "dict" and c.get("valuef") and c["valuef"].get("opts") and c["valuef"]["kind"] not in ("bytes", "secure", "challenge"):
+            free = next((k for k in worlds.KEY_POOL if k not in keys), None)
+            if free:
+                loose = dict(c, key=free, valuef=dict(c["valuef"], opts={}, validator=None, req=False), default={"mode": "none"}, req=False, validator=None, twin_of=c["key"])
+                return dict(spec, children=spec["children"] + [loose])
+    return spec
+
+
 def strategy(tier):
     n = 25 if tier == "quick" else 70
-    return worlds.schema_spec(tier).flatmap(
-        lambda spec: st.fixed_dictionaries({"spec": st.just(spec), "ops": ops.op_strategy(spec, n)}))
+    def hist(spec):
+        base = ops.single_op(spec)
+        leaves = ops.spec_leaves(spec)
+        twins = [(i, nd) for i, (p, nd) in enumerate(leaves) if nd.get("twin_of") and len(p) == 1]
+        if not twins:
+            return st.fixed_dictionaries({"spec": st.just(spec), "ops": ops.op_strategy(spec, n)})
+        ti, tnode = twins[0]
+        si = next(i for i, (p, nd) in enumerate(leaves) if p == (tnode["twin_of"],))
+        # fill the loose twin, then offer what it holds to the strict field
+        transfer = st.fixed_dictionaries({"op": st.just("copy_from"), "leaf": st.just(si), "src": st.just(ti), "fill": ops.value_for(tnode),
+                                          "how": st.sampled_from(["assign", "assign", "extend", "iadd", "update"])})
+        return st.fixed_dictionaries({"spec": st.just(spec), "ops": st.lists(ops.weighted((3, base), (1, transfer)), min_size=2, max_size=n)})
+    return worlds.schema_spec(tier).map(_twin).flatmap(hist)
 
 
 def _without(snap, path):
